@@ -432,6 +432,19 @@ def cell_table(fp, data, dtype, shape_px):
     return tab
 
 
+def coincides(l, fill, smin, mwm, slack=0.0):
+    """A cell whose legitimately written weighted mean equals the (finite) fill value cannot be told from an empty cell:
+    True iff the contributions reach the threshold and their mean is the fill value within the float32 bound."""
+    if fill != fill or not l or mwm:
+        return False
+    W = sum(wt for _, wt in l)
+    if W < smin * (1 - (len(l) + 2) * U24):
+        return False
+    S = sum(abs(v) * wt for v, wt in l)
+    mean = sum(v * wt for v, wt in l) / W
+    return abs(mean - fill) <= (2 * len(l) + 8) * U24 * (S / W) + slack + 1e-45
+
+
 def judge_fornav(case, o, pfx="C08.fornav"):
     """Property text: each cell = fill or a weighted mean of valid inputs (bounded, constants preserved); max-weight: an input value."""
     fails = []
@@ -485,7 +498,7 @@ def judge_fornav(case, o, pfx="C08.fornav"):
         return [(pfx + ".error", "fornav raised %s (%s) although %d cells receive contributions" % (one["error"], one.get("msg"), len(tab)))], tab
     out = arr(one["out"], (h, w))
     sfx = ".fill_pixels" if case.get("has_fill") else ""
-    nvalid = 0
+    nvalid = ncoinc = 0
     for rr in range(h):
         for cc in range(w):
             ov = out[rr, cc]
@@ -516,6 +529,9 @@ def judge_fornav(case, o, pfx="C08.fornav"):
             tol = (2 * k + 8) * U24 * (S / W) + 1e-45
             near = abs(W - smin) <= (k + 2) * U24 * W
             if of:
+                if coincides(l, fill, smin, mwm):
+                    ncoinc += 1          # the written mean IS the fill value (e.g. -3 and 3 around fill 0): excluded, counted
+                    continue
                 if W >= smin and not near:
                     fails.append((pfx + ".missing_value" + sfx, "cell (%d,%d) is fill although the weights sum to %r >= %r" % (rr, cc, W, smin)))
                 continue
@@ -528,8 +544,9 @@ def judge_fornav(case, o, pfx="C08.fornav"):
                 fails.append((pfx + ".mean" + sfx, "cell (%d,%d) = %r, weighted mean of its %d valid inputs is %r (tolerance %.3g)" % (rr, cc, ov, k, mean, tol)))
             elif case.get("const") is not None and abs(ov - f32(case["const"])) > tol:
                 fails.append((pfx + ".constant" + sfx, "constant field %r gives %r at (%d,%d)" % (case["const"], ov, rr, cc)))
-    if one["n"] != nvalid:
-        fails.append((pfx + ".valid_count", "fornav reports %d valid cells, the grid has %d" % (one["n"], nvalid)))
+    if not nvalid <= one["n"] <= nvalid + ncoinc:
+        fails.append((pfx + ".valid_count", "fornav reports %d valid cells, the grid has %d (+%d whose value coincides with the fill)" % (one["n"], nvalid, ncoinc)))
+    case["_ncoinc"] = ncoinc
     if "error" not in ws:
         g2 = arr(ws["grid"], (h, w))
         same = (out == g2) | ((out != out) & (g2 != g2))
@@ -655,6 +672,8 @@ def judge_scene(case, o):
             a, b = oout[rr, cc], dout[rr, cc]
             fa, fb = isfill(a, fill), isfill(b, fill)
             l = (tab or {}).get((rr, cc), [])
+            if (fa or fb) and l and coincides(l, fill, min(smin1, smin2), case["mwm"], slack=4 * eq * (max(v for v, _ in l) - min(v for v, _ in l))):
+                fa = fb = False      # a written mean that coincides with the finite fill value: compare as values
             if (rr, cc) in edge and not case["mwm"]:
                 continue
             key = "C08.dask.dropped_chunk.footprint_beyond_margin" if (rr, cc) in tainted else "C08.dask.vs_oneshot"
@@ -742,13 +761,14 @@ def coq_fcase(case, o, tab):
             ov = out[rr, cc]
             a = Ai[rr, cc]
             cells.append("(%d, %d, %s, %s, %s)" % (rr, cc, qd(Wi[rr, cc]), qd(a if a == a else 0.0),
-                                                  "None" if isfill(ov, fill) else "Some %s" % qd(ov)))
+                                                  "None" if isfill(ov, fill) and not coincides(tab.get((rr, cc), []), fill, smin_eff(case["params"]), case["mwm"])
+                                                  else "Some %s" % qd(ov)))
     p = case["params"]
     return "mk_fcase %s %s %s [%s] [%s]" % ("true" if case["mwm"] else "false", qd(f32(p["weight_sum_min"])), qd(f32(p["weight_min"])),
                                             ";\n ".join(px), "; ".join(cells)), len(cells)
 
 
-def coq_dcases(case, o):
+def coq_dcases(case, o, tab=None):
     """One dcase per output block: per input chunk the placeholder flag and the sub-grid footprint tables."""
     fill = U(case["fill"])
     h, w = case["grid"]
@@ -765,7 +785,9 @@ def coq_dcases(case, o):
             dd = data[starts[ci]:starts[ci] + in_rows]
             px = coq_pixels(dd, ent.get("fp") or [], fill)
             chunks.append("(%s, [%s])" % ("true" if ent["empty"] else "false", ";\n  ".join(px)))
-        cells = ["(%d, %d, %s)" % (rr, cc, "None" if isfill(dout[y0 + rr, x0 + cc], fill) else "Some %s" % qd(dout[y0 + rr, x0 + cc]))
+        sm = smin_eff(case["params"], dask=True)
+        cells = ["(%d, %d, %s)" % (rr, cc, "None" if isfill(dout[y0 + rr, x0 + cc], fill)
+                                   and not coincides((tab or {}).get((y0 + rr, x0 + cc), []), fill, sm, case["mwm"]) else "Some %s" % qd(dout[y0 + rr, x0 + cc]))
                  for rr in range(nr) for cc in range(nc)]
         res.append("mk_dcase %s %s [%s] [%s]" % ("true" if case["mwm"] else "false", qd(f32(case["params"]["weight_sum_min"])),
                                                  ";\n ".join(chunks), "; ".join(cells)))
@@ -927,6 +949,9 @@ def run(ctx):
             ctx.count("fornav:" + case["geo"])
         if case.get("masked"):
             ctx.count("fornav:masked_array_input")
+        if case.get("_ncoinc"):
+            ctx.count("fornav:cells_excluded_value_coincides_with_fill", case.pop("_ncoinc"))
+        case.pop("_ncoinc", None)
         ctx.count("fornav:data_layout_" + case.get("layout", "c"))
         if case.get("geo_layout", "c") != "c":
             ctx.count("fornav:geoloc_layout_" + ("rejected" if "error" in (o.get("oneshot_geo") or {}) else "accepted"))
@@ -954,6 +979,8 @@ def run(ctx):
         ctx.count("scene:out_blocks=%d" % (len(case["out_chunks"][0]) * len(case["out_chunks"][1])))
         if ok and any(o["placeholders"]):
             ctx.count("scene:placeholder_chunk")
+        if case.pop("_ncoinc", 0):
+            ctx.count("scene:has_cells_whose_value_coincides_with_fill")
         fv = U(case["fill"])
         ctx.count("scene:fill_" + ("default_none" if case.get("dask_fill_default") else "nan_explicit" if fv != fv else "zero" if fv == 0 else "other_explicit"))
         ctx.count("scene:persist=%s" % bool(case.get("persist")))
@@ -975,7 +1002,7 @@ def run(ctx):
         if "error" not in fo["oneshot"] and "error" not in fo["ws"]:
             safe_append(ctx, F, "fornav_accumulate", coq_fcase, case, fo, tab or {})
         if o.get("sub"):
-            safe_append(ctx, D, "dask_reduction", coq_dcases, case, o, extend=True)
+            safe_append(ctx, D, "dask_reduction", coq_dcases, case, o, tab or {}, extend=True)
         # placeholders decided by the ll2cr model; block layout
         R, C = len(case["lons"]), len(case["lons"][0])
         xs, ys = o["ll2cr"]["x"], o["ll2cr"]["y"]
